@@ -55,3 +55,36 @@ def classify_result_use(f, uses, local, accept, reject, visited):
         else:
             good = good or k
     return True, good or "used"
+
+
+def splice(ix, paths, want, rounds=3, min_paths=1):
+    """paths with the success paths of selected multi-path workspace callees spliced in (see Inter.expand_on): `want(e)`
+    picks the call events to open up - typically "returns the type the rule is about" - so that a block extracted
+    into a helper is analysed like inline code"""
+    work = list(paths)
+    for _ in range(rounds):
+        nxt = []
+        changed = False
+        for p in work:
+            ev = None
+            for e in p.events:
+                if e.target is None or e.idx == -1 and False:
+                    continue
+                if tag(e.result) != "call" or not want(e):
+                    continue
+                try:
+                    if len(ix.ok_paths_at(e.target, ix.param_map(e.target, e.args))) >= min_paths:
+                        ev = e
+                        break
+                except Exception:
+                    continue
+            if ev is None:
+                nxt.append(p)
+            else:
+                ex = ix.expand_on(p, ev)
+                changed = changed or not (len(ex) == 1 and ex[0] is p)
+                nxt.extend(ex)
+        work = nxt
+        if not changed:
+            break
+    return work
